@@ -304,8 +304,11 @@ class ndarray:
                     idxs = [i for i, b in enumerate(kd) if b]
                 else:
                     if builtins.any(isinstance(b, SymBool) for b in kd):
-                        raise symx.Inconclusive("symbolic-mask", "boolean mask with symbolic entries at %s" % symx._where())
-                    idxs = [_as_index(i, n) for i in kd]
+                        if len(kd) != n or len(kd) > 6 or not builtins.all(isinstance(b, (bool, _np.bool_, SymBool)) for b in kd):
+                            raise symx.Inconclusive("symbolic-mask", "boolean mask with symbolic entries at %s" % symx._where())
+                        idxs = [i for i, b in enumerate(kd) if bool(b)]  # one fork per symbolic entry (bounded: <= 6 entries)
+                    else:
+                        idxs = [_as_index(i, n) for i in kd]
                 adv.append((len(shape), idxs, st))
                 shape.append(len(idxs))
                 strides.append(None)
